@@ -87,7 +87,8 @@ def atom(draw, classes):
             val = re.match(r"(v|0!)?\d+(\.\d+){0,2}", val).group()
             op, val = op[:2], val + ".*"
         elif op == "~=":
-            val = re.match(r"(v|0!)?\d+(\.\d+)*", val).group()  # ~= after a pre-/post-release literal is left out
+            if re.match(r"(v|0!)?\d+$", re.sub(r"(\.?(rc|a|b|post|dev)\d+)+$", "", val)):
+                val = re.match(r"(v|0!)?\d+", val).group()  # ~= needs two release segments: "3.post1" -> "3" -> "3.0"
             if "." not in val:
                 val += ".0"
         else:
